@@ -15,7 +15,7 @@ from vp.core import Acc, Failure, Outcome
 ID = "C16"
 LEVEL = "exploration"
 RULE = (
-    "Programs from the shared generator (every entry of the 160-function op table occurs as a node; single-op and dag profiles) are "
+    "Programs from the shared generator (every entry of the op table occurs as a node: single-op and dag profiles, and sweep shards that build every entry in every run) are "
     "built under two storage set-ups - intermediate_store = tracing store, and work_dir = a directory that does not exist yet - with a "
     "Spec executor that records entry. After building every node, and after each drawn lazy action (plan() with the default / legacy / "
     "fuse-all optimizer or optimization off, visualize() to a scratch file in dot/svg with show_hidden on/off, repr / _repr_html_, "
@@ -35,12 +35,12 @@ ACTIONS = ["region-lazy-path", "lazy-over-existing-path", "lazy-over-existing-pa
 TRIGGERS = ["compute", "array", "scalar", "store-eager", "to_zarr-eager", "compute-method"]
 
 
-def case_strategy(opts=None, max_ops=4):
+def case_strategy(opts=None, max_ops=4, min_ops=0):
     from hypothesis import strategies as st
 
     @st.composite
     def cases(draw):
-        prog = draw(P.programs("dag", max_ops=max_ops, min_ops=0, opts=opts))
+        prog = draw(P.programs("dag", max_ops=max_ops, min_ops=min_ops, opts=opts))
         return {
             "kind": "program",
             "prog": prog,
@@ -330,8 +330,8 @@ def check_case(case) -> Outcome:
 def shards(tier):
     if tier == "quick":
         return [{"kind": "program", "name": f"s{i}", "n": 55, "rotate": 23 + i * 53, "max_ops": 1 if i < 3 else 4} for i in range(7)] + [
-            {"kind": "rechunk-plan", "name": "rp0", "n": 160}]
-    return [{"kind": "program", "name": f"s{i}", "n": 900, "rotate": 23 + i * 53, "max_ops": 1 if i < 5 else 4} for i in range(14)] + [
+            {"kind": "rechunk-plan", "name": "rp0", "n": 160}] + [{"kind": "sweep", "name": f"sweep{i}", "part": i, "of": 4, "per": 2} for i in range(4)]
+    return [{"kind": "sweep", "name": f"sweep{i}", "part": i, "of": 8, "per": 40} for i in range(8)] + [{"kind": "program", "name": f"s{i}", "n": 900, "rotate": 23 + i * 53, "max_ops": 1 if i < 5 else 4} for i in range(14)] + [
         {"kind": "rechunk-plan", "name": f"rp{i}", "n": 2500} for i in range(2)]
 
 
@@ -345,6 +345,13 @@ def run_shard(spec, seed, tier) -> Acc:
 
         core.hyp_run(c14.real_cases(max_side=160, max_elems=24000), check_case, seed=seed, max_examples=spec["n"], acc=acc,
                      budget_s=420 if tier == "quick" else 3000, shrink=(tier == "thorough"), is_known=is_known)
+        return acc
+    if spec["kind"] == "sweep":
+        # every operation of the op table is built (and then triggered) in every run
+        names = sorted(set(P.weighted_names("dag")))[spec["part"]::spec["of"]]
+        for j, nm in enumerate(names):
+            core.hyp_run(case_strategy({"rotate": 0, "only_ops": [nm, "pick"]}, max_ops=2, min_ops=1), check_case, seed=seed + j, max_examples=spec["per"], acc=acc,
+                         budget_s=60 if tier == "quick" else 900, shrink=False, is_known=is_known)
         return acc
     core.hyp_run(case_strategy({"rotate": spec.get("rotate", 0)}, max_ops=spec.get("max_ops", 4)), check_case, seed=seed, max_examples=spec["n"], acc=acc,
                  budget_s=420 if tier == "quick" else 3000, shrink=(tier == "thorough"), is_known=is_known)
